@@ -165,7 +165,7 @@ Definition sess_eq_on (U : list key) (a b : sess) : bool :=
      | _, _ => false
      end.
 Definition model_op (g : cfg) (s : sess) (o : sop) : option sess :=
-  let w := {| ws := s; wp := {| up := None; ptable := empty |}; desired := empty |} in
+  let w := {| ws := s; wp := {| up := None; ptable := empty; pcap := false |}; desired := empty |} in
   match o with
   | OAbort => Some (abort s)
   | OSet l => option_map ws (step g w (ESet l))
